@@ -445,6 +445,7 @@ class Interp:
                 raw.closure = fi.closure                          # type: ignore[attr-defined]
             value: Term = ("func", raw)
             scratch = self.new_state()
+            scratch.env = dict(getattr(fi, "closure", None) or {})      # (a nested def: its decorators see the defining scope)
             mctx = Ctx(None, fi.module, 0)
             try:
                 for d in reversed(fi.node.decorator_list):
@@ -3546,10 +3547,10 @@ class Interp:
             ra = self.compare(op, a[2], b, st, ctx, node)
             rb = self.compare(op, a[3], b, st, ctx, node)
             if not is_c(ra):
-                d_ = decided_by(_atoms(a[1]), ra)
+                d_ = decided_by(list(st.pc) + _atoms(a[1]), ra)
                 ra = c(d_) if d_ is not None else ra
             if not is_c(rb):
-                d_ = decided_by(_atoms(neg(a[1])), rb)
+                d_ = decided_by(list(st.pc) + _atoms(neg(a[1])), rb)
                 rb = c(d_) if d_ is not None else rb
             if is_c(ra) and is_c(rb):
                 return c(ra[1]) if ra[1] == rb[1] else (a[1] if ra[1] else neg(a[1]))
